@@ -301,45 +301,6 @@ example : compareVersion ['0','.','1','0','.','2'] v080 = .ok 1 ∧ compareVersi
 
 /-! ## fixpoint -/
 
-theorem ok_with_info (L : Laser) (X : Info) (hL : L.ok = true) (hX : noNulEnd (packInfoRaw X) = true) :
-    ({ L with info := X } : Laser).ok = true := by
-  simp only [Laser.ok, Bool.and_eq_true] at hL ⊢
-  exact ⟨hL.1, hX⟩
-
-theorem noNulEnd_of_version (ver : Str) (h : ver.all (fun c => c.isDigit || c == '.') = true) :
-    noNulEnd ver = true := by
-  unfold noNulEnd
-  cases hl : ver.getLast? with
-  | none => rfl
-  | some c =>
-    have := (List.all_eq_true.mp h) c (List.mem_of_getLast? hl)
-    have hc : c ≠ NUL := by
-      intro e; subst e; revert this; decide
-    simp [hc]
-
-theorem generations_succ (fl : Rat → Rat) (ver time : Str) (p : PathInfo) (n : Nat) (L : Laser) :
-    generations fl ver time p (n + 1) L
-      = ((save fl ver time L >>= load fl p) >>= generations fl ver time p n) := by
-  simp only [generations]
-  cases save fl ver time L <;> rfl
-
-/-- save → load of a laser whose info is that of a loaded laser only moves `File Path` to the end -/
-theorem generations_good (fl : Rat → Rat) (hfl : ∀ x, |fl x - x| ≤ |x| / 2 ^ 53) (p : PathInfo) (ver time : Str)
-    (L : Laser) (hL : L.ok = true) (hv : versionOk ver = true) (ht : noNulEnd time = true)
-    (n : Nat) (X : Info) (g : Good p ver X) :
-    generations fl ver time p (n + 1) { L with info := X } = .ok { L with info := nextInfo p X } := by
-  induction n generalizing X with
-  | zero =>
-    rw [generations_succ, load_save fl hfl p ver time _ (ok_with_info L X hL (noNulEnd_packInfoRaw X g.nonul)) hv ht]
-    simp only [normalise, finish_spec_good p ver X g]
-    rfl
-  | succ n ih =>
-    rw [generations_succ, load_save fl hfl p ver time _ (ok_with_info L X hL (noNulEnd_packInfoRaw X g.nonul)) hv ht]
-    simp only [normalise, finish_spec_good p ver X g]
-    have := ih (nextInfo p X) (good_next p ver X g)
-    rw [nextInfo_idem] at this
-    exact this
-
 /-- **Loading is a fixpoint.**  Let `L₁ = normalise L` be what the first load returns.  Then saving
 and loading `L₁` again succeeds, the result is the same Python object as `L₁` (all fields equal,
 the info dicts equal as mappings — only `File Path` has moved to the end of the insertion order),
@@ -384,7 +345,7 @@ theorem generations_fixpoint (fl : Rat → Rat) (hfl : ∀ x, |fl x - x| ≤ |x|
     rw [generations_succ, load_save fl hfl p ver time L hL hv ht]; rfl
   refine ⟨h1, ?_⟩
   rw [generations_succ, load_save fl hfl p ver time L hL hv ht]
-  have := generations_good fl hfl p ver time L hL hv ht n _ g
+  have := generations_good fl p ver time (fun L' h => load_save fl hfl p ver time L' h hv ht) L hL n _ g
   simp only [normalise, finish_spec_good p ver _ g] at this ⊢
   exact this
 
